@@ -436,3 +436,34 @@ Theorem distances_with_colliding_bits_refuted : forall mg p,
     wrf mg p acc s1 s2 = Ok 0 /\ euclid_sq mg p acc s1 s2 = Ok 0.
 Proof. exact distances_with_colliding_bits_refuted_l. Qed.
 Print Assumptions distances_with_colliding_bits_refuted.
+
+(* ===== wave 8: a call the library refuses (documented error, caught) between the distance calls =====
+   The harness reports such a call to the model as the structure it leaves (OpEdit, like every edit made outside
+   the model) and demands - oracle clause "a refused operation changes nothing", checked on the pointers of every
+   node of every tree - that this is the structure the tree already had, no cache reset: unchanged_edit a st. *)
+From DV Require Import Proofs.C04Refused.
+
+(* such a step is the identity on the world (trees, detached edges, edge bipartitions, cached encodings and maps) *)
+Theorem refused_call_changes_nothing : forall (mg : bool) (p : policy) (w : world) (a : nat) (st : tstate),
+  get_t w a = Ok st -> step mg p w (unchanged_edit a st) = (OUnit, w).
+Proof. exact refused_edit_frame_l. Qed.
+Print Assumptions refused_call_changes_nothing.
+
+(* hence every later encode / distance result (and every later normalisation of a tree) is the one of the
+   history without the refused call *)
+Theorem refused_call_later_results : forall (mg : bool) (p : policy) (w : world) (a : nat) (st : tstate) (ops : list op),
+  get_t w a = Ok st ->
+  run_show mg p w (unchanged_edit a st :: ops) = (OUnit, map ts_struct (w_trees w)) :: run_show mg p w ops.
+Proof. exact refused_edit_later_results_l. Qed.
+Print Assumptions refused_call_later_results.
+
+(* the hypotheses are satisfiable: after a weighted RF call (encodings cached) the refused-call step keeps the
+   cache and the distance with is_bipartitions_updated=True after it is the one before it (0 to a re-drawing) *)
+Theorem refused_call_example :
+  exists w1 st d, snd (step true ZeroBoth rf_world (OpWRF 0 1 false)) = w1 /\ get_t w1 0 = Ok st /\
+                  ts_enc st <> None /\
+                  fst (step true ZeroBoth w1 (OpWRF 0 1 true)) = d /\
+                  run_show true ZeroBoth w1 [unchanged_edit 0 st; OpWRF 0 1 true] =
+                  [(OUnit, map ts_struct (w_trees w1)); (d, map ts_struct (w_trees w1))] /\ d = OInt 0.
+Proof. exact refused_example. Qed.
+Print Assumptions refused_call_example.
